@@ -1296,3 +1296,4 @@ LEVEL_NOTE = ("Proved (no sorry, standard axioms only): DWF (p in parents c <-> 
               "behaviour with the checks switched off beyond the model correspondence.")
 TECHNIQUE = "machine-checked proof (Lean 4) on a hand-written executable model + correspondence check against the real code"
 NOT_READY = False
+RULE = RULE + " Fourth session: a third of the distinct-name checks-on histories without constructor calls end with copy=<v>: one node.copy() per weakly connected component of the final state, compared cell by cell with DagStore.deepCopy of the model's final store (tie of C07Dag.*); failing library calls (cyclic relation lists, ...) as no-op events between the operations of a fifth of the random histories."
